@@ -12,6 +12,21 @@ binds rows to ids) are inside the oracle: stream `own-id-order` gives every vari
 ascending, descending, reversed, rolled, shuffled), with two or more nodal and / or elemental variables carrying
 DIFFERENT private orders, and demands the values read back under every id to be bit-identical to the variable's own
 row for that id.  The correspondence (model writer Cfg.fixed = rows looked up by id per variable) runs on it as well.
+
+Histories (seeded change C04-6: the writer took coordinates / nodal values from the attributes' pandas frames, which do not
+share memory with the arrays behind `.data`): in both streams about 40% of the objects are NOT written as constructed.
+`case['hist']` = the object is optionally first written and read back from a UCD file (write after read), optionally
+written once already, then modified 0-4 times through public means (in-place edits through the arrays returned by `.data`
+/ `.values` / `get_attribute_data` of nodes, nodal and elemental variables and connectivity, edits through the arrays the
+caller handed to the constructors, `data` setter with and without later edits of the assigned array, `.loc` / `.iloc`
+write-through, `update` / `update_data(..., allow_overwrite=True)`, `overwrite` with and without ids, pop / add of
+variables, `elements.update` of whole type blocks, block update of elemental variables, renumbering of nodes / elements by
+permutations of the SAME ids, offsets and rank reversal), then written once or twice.  Expected = the snapshot of the
+object's public state (`ids` / `data` views) taken just before write(); the model writer is fed that snapshot (byte
+identity), an independently constructed fresh object with the same content must give the same bytes, a second write the
+same bytes, write() must leave the public state as it was, and the session model (`Model/UcdHist.lean`) must hold, at the
+end, exactly the files on disk.  An object whose public views disagree with each other (aggregate element view vs
+per-type blocks) is outside the property: counted under `outside`, never reported.
 """
 import math
 import struct
@@ -26,7 +41,9 @@ LEAN_MODULES = ['Femio.Props.C04']
 THEOREMS = ['C04_offsets', 'C04_roundtrip', 'C04_roundtrip_printed', 'C04_tet2_first_order', 'C04_nothing_else_changes',
             'C04_bound_to_same_ids', 'C04_type_table', 'C04_misaligned_counterexample',
             'C04_bound_to_same_ids_own_order', 'C04_own_order_counterexample_upstream', 'C04_lex_print_line',
-            'C04_roundtrip_lines', 'C04_roundtrip_chars', 'C04_roundtrip_chars_printed', 'C04_own_order_chars']
+            'C04_roundtrip_lines', 'C04_roundtrip_chars', 'C04_roundtrip_chars_printed', 'C04_own_order_chars',
+            'C04_history_roundtrip', 'C04_write_leaves_object', 'C04_second_write_same_file',
+            'C04_file_of_public_state_only', 'C04_stale_frame_counterexample']
 PARTIAL = [
     'C04_roundtrip_printed / C04_roundtrip_chars_printed: parametric in (print, parse) with the hypotheses '
     'parse (print v) = v and valOKB (print v); that Python\'s shortest repr / float() satisfy the first is trusted and '
@@ -35,6 +52,10 @@ PARTIAL = [
     'character level: lines are split at newlines with empty lines skipped (pd.read_csv(sep="@", header=None) inside '
     'StringSeries.read_file is modelled by that rule, its quoting / carriage-return handling is not modelled; '
     'names and numerals contain neither quotes nor carriage returns)',
+    'C04_history_roundtrip / C04_second_write_same_file / C04_file_of_public_state_only: the session model (Model/UcdHist.lean) '
+    'takes the effect of a modification on the public state as data (Step.assign / Step.inplace carry the resulting state, '
+    'Step.edit an arbitrary function): how pandas / numpy compute that state (combine_first, write-through, aliasing) is not '
+    'modelled; the tie feeds the model the snapshots taken from the real object before each write and compares every file',
 ]
 RULE = ('random combinatorial mesh (1-3 element types out of line, spring, tri, quad, tet, tet2, pyr, prism, hex, hexprism; '
         'tet together with tet2 included; arbitrary distinct node / element ids incl. ~2e9; storage order ascending, '
@@ -48,7 +69,16 @@ RULE = ('random combinatorial mesh (1-3 element types out of line, spring, tri, 
         'non-trivial = at least 2 elements and at least one variable besides NODE. Stream own-id-order: the same meshes, '
         'every variable stored in a private id order drawn from {mesh order, ascending, descending, reversed mesh order, '
         'rolled, shuffled}, 2-4 variables in at least one of the two families (nodal / elemental); non-trivial = some '
-        'family holds two variables whose orders differ from the mesh order and from each other')
+        'family holds two variables whose orders differ from the mesh order and from each other. Dimension HISTORY (42% of '
+        'the main stream, 30% of own-id-order): the object is not written as constructed: optionally read from a UCD file '
+        'first (14%), optionally written once before (40%; to the same or another file), then 0-4 modifications through public '
+        'means with concrete arguments chosen against the live object (in-place edits of cells / rows / whole arrays through '
+        '.data, .values, get_attribute_data of nodes, nodal / elemental variables, connectivity; edits through the arrays the '
+        'caller passed to the constructors; data setter (+ later edit of the assigned array, width changes); .loc / .iloc / '
+        'slice / scalar write-through; update / update_data(allow_overwrite=True); overwrite with / without ids; pop / add '
+        'variables; elements.update and elemental block updates; renumbering nodes / elements by a permutation of the same ids, '
+        'an offset or rank reversal), then one or two final writes (other file / same file with overwrite=True); expectation = '
+        'snapshot of the public ids / data views just before write(); every history is replayable from its JSON description')
 ASSUMPTIONS = [
     'the ids of a nodal (elemental) variable are a permutation of the mesh\'s node (element) ids; the row order of each '
     'variable is its own (aligned with the mesh in the main stream, private per variable in the stream own-id-order)',
@@ -57,6 +87,11 @@ ASSUMPTIONS = [
     'node and element ids are positive integers below 2**53 (the reader converts ids through float)',
     'polygon / polyhedron elements (object connectivity) and second-order types other than tet2 (the writer raises) are '
     'outside the property',
+    'the mesh "with its data" of an object that has a history is its PUBLIC state at the time of write(): ids / data of '
+    'fem_data.nodes, of every per-type block of fem_data.elements, and of every 2-D entry of nodal_data / elemental_data; an '
+    'object whose public views disagree with each other (aggregate view of the elements or of an elemental variable != its '
+    'per-type blocks, NODE variable != coordinates, a variable that does not cover the ids) is outside (stream `outside`); '
+    'modifications that femio itself refuses (they raise before write) end the generated history before them',
 ]
 TRUSTED = ['C04: parse (print v) = v for Python shortest-repr printing and float() (hypothesis of C04_roundtrip_printed)']
 
@@ -220,61 +255,555 @@ def from_json(j):
             'elem_vars': [{**v, 'data': fl(v['data'])} for v in j['elem_vars']]}
 
 
-def build(case):
+def attach(fd, fam, v, keep=None):
+    """store the variable under the KEY v['name'] of fd.nodal_data (fam 'nodal') / fd.elemental_data (fam 'elem'); its
+    FEMAttribute.name is v['attr'] (default: the key).  keep: the arrays handed to femio are recorded (caller-side aliases)"""
+    from femio import FEMAttribute, FEMElementalAttribute
+    attrs = fd.nodal_data if fam == 'nodal' else fd.elemental_data
+    if fam == 'nodal':
+        def make(name, ids, data):
+            return FEMAttribute(name, ids=ids, data=data)
+    else:
+        def make(name, ids, data):
+            return FEMElementalAttribute(name, data, ids=ids)
+    key, attr, ids, data = v['name'], v.get('attr', v['name']), np.array(v['ids']), np.array(v['data'], dtype=float)
+    if keep is not None:
+        keep[(fam, key)] = data
+    how = v['how']
+    if how == 'set_attribute_data' and not (len(attrs) and [int(i) for i in list(attrs.values())[0].ids] == v['ids']
+                                            and attrs.are_same_lengths()):
+        how = 'setitem'      # set_attribute_data binds the rows to the ids of the first attribute
+    if how == 'update_data':
+        assert attr == key
+        attrs.update_data(ids, {key: data})
+    elif how == 'generate':
+        attrs[key] = fd.elements.generate_elemental_attribute(attr, ids, data)
+    elif how == 'setitem':
+        attrs[key] = make(attr, ids, data)
+    elif how == 'update':
+        attrs.update({key: make(attr, ids, data)})
+    elif how == 'set_attribute_data':
+        attrs.set_attribute_data(key, data, name=attr)
+    else:
+        raise ValueError(how)
+
+
+def build(case, keep=None):
+    """the FEMData of the case AS CONSTRUCTED (the history of the case, if any, is applied by `prepare`)"""
     from femio import FEMData, FEMAttribute, FEMElementalAttribute
-    nodes = FEMAttribute('NODE', ids=np.array([i for i, _ in case['nodes']]),
-                         data=np.array([p for _, p in case['nodes']], dtype=float), silent=True)
-    el = {t: FEMAttribute(t, ids=np.array([e for e, _ in b]), data=np.array([c for _, c in b]), silent=True)
+    xyz = np.array([p for _, p in case['nodes']], dtype=float)
+    conn = {t: np.array([c for _, c in b]) for t, b in case['blocks'].items()}
+    nodes = FEMAttribute('NODE', ids=np.array([i for i, _ in case['nodes']]), data=xyz, silent=True)
+    el = {t: FEMAttribute(t, ids=np.array([e for e, _ in b]), data=conn[t], silent=True)
           for t, b in case['blocks'].items()}
     fd = FEMData(nodes=nodes, elements=FEMElementalAttribute('ELEMENT', G.insertion_order(el)))
-
-    def attach(attrs, v, make):
-        """store the variable under the KEY v['name']; its FEMAttribute.name is v['attr'] (default: the key)"""
-        key, attr, ids, data = v['name'], v.get('attr', v['name']), np.array(v['ids']), np.array(v['data'], dtype=float)
-        how = v['how']
-        if how == 'set_attribute_data' and not (len(attrs) and [int(i) for i in list(attrs.values())[0].ids] == v['ids']
-                                                and attrs.are_same_lengths()):
-            how = 'setitem'      # set_attribute_data binds the rows to the ids of the first attribute
-        if how == 'update_data':
-            assert attr == key
-            attrs.update_data(ids, {key: data})
-        elif how == 'generate':
-            attrs[key] = fd.elements.generate_elemental_attribute(attr, ids, data)
-        elif how == 'setitem':
-            attrs[key] = make(attr, ids, data)
-        elif how == 'update':
-            attrs.update({key: make(attr, ids, data)})
-        elif how == 'set_attribute_data':
-            attrs.set_attribute_data(key, data, name=attr)
-        else:
-            raise ValueError(how)
+    if keep is not None:
+        keep[('nodes', None)] = xyz
+        keep.update({('conn', t): a for t, a in conn.items()})
     for v in case['nodal_vars']:
-        attach(fd.nodal_data, v, lambda name, ids, data: FEMAttribute(name, ids=ids, data=data))
+        attach(fd, 'nodal', v, keep)
     for v in case['elem_vars']:
-        attach(fd.elemental_data, v, lambda name, ids, data: FEMElementalAttribute(name, data, ids=ids))
+        attach(fd, 'elem', v, keep)
     if case['pop_node']:
         fd.nodal_data.pop('NODE')
+    elif case.get('node_pos'):
+        # NODE is not the first nodal variable (an object read from a file without NODE block gets it appended)
+        items = [(k, v) for k, v in fd.nodal_data.items() if k != 'NODE']
+        items.insert(case['node_pos'], ('NODE', fd.nodes))
+        fd.nodal_data.reset()
+        for k, v in items:
+            fd.nodal_data[k] = v
     return fd
+
+
+# ------------------------------------------------------------------ histories: the object is modified between construction and write
+#
+# case['hist'] = {'via_file': bool          the object that is written was itself READ from a UCD file (write after read)
+#                 'pre_write': None | 'same' | 'other'   the object has already been written once before it is modified
+#                 'mods': [op ...]          modifications through public means, in this order (concrete arguments, JSON)
+#                 'writes': 1 | 2           the final state is written once / twice ('second': other file | same file, overwrite=True)}
+# The expected content of the file is that of the object's public state (`ids` / `data` views) just before write().
+
+class HistoryError(Exception):
+    """a step BEFORE the final write raised or does not apply: not the subject of C04 (the case is skipped and counted)"""
+
+
+def _fmat(rows):
+    return np.array([[dec_f(x) for x in r] for r in rows], dtype=float)
+
+
+def _mat(rows, fam):
+    return np.array(rows, dtype=int) if fam == 'conn' else _fmat(rows)
+
+
+def _val(x, fam):
+    return int(x) if fam == 'conn' else dec_f(x)
+
+
+def _attr(fd, fam, key):
+    if fam == 'nodes':
+        return fd.nodes
+    if fam == 'nodal':
+        return fd.nodal_data[key]
+    if fam == 'elem':
+        return fd.elemental_data[key]
+    if fam == 'conn':
+        return fd.elements       # one element type: the aggregate view is the block's own array
+    raise ValueError(fam)
+
+
+def _view(fd, op):
+    """the array a user gets hold of (several public spellings of the same thing)"""
+    fam, key, via = op['fam'], op.get('key'), op.get('via', 'data')
+    if via == 'get_attribute_data' and fam in ('nodal', 'elem'):
+        return (fd.nodal_data if fam == 'nodal' else fd.elemental_data).get_attribute_data(key)
+    a = _attr(fd, fam, key)
+    return a.values if (via == 'values' and hasattr(a, 'values') and not isinstance(a, dict)) else a.data
+
+
+def _edit(arr, op):
+    fam, how = op['fam'], op['how']
+    if how == 'cell':
+        for r, c, x in op['cells']:
+            arr[r, c] = _val(x, fam)
+    elif how == 'row=':
+        arr[op['row']] = [_val(x, fam) for x in op['vals']]
+    elif how == 'row+=':
+        arr[op['row']] += np.array([_val(x, fam) for x in op['vals']])
+    elif how == 'all=':
+        arr[...] = _mat(op['data'], fam)
+    else:
+        raise ValueError(how)
+
+
+def apply_op(fd, op, keep):
+    from femio import FEMAttribute
+    o, fam, key = op['op'], op.get('fam'), op.get('key')
+    if o == 'inplace':
+        arr = _view(fd, op)
+        if arr.flags.writeable:
+            _edit(arr, op)
+        else:           # numpy refuses (arrays that came out of a pandas frame are read-only): copy, edit, assign
+            arr = np.array(arr)
+            _edit(arr, op)
+            _attr(fd, fam, key).data = arr
+            return 'array returned by .data is read-only: copied, edited, assigned through the setter'
+    elif o == 'caller':             # the array the caller handed to femio when the object was constructed
+        arr = keep.get((fam, key))
+        if arr is None or not arr.flags.writeable:
+            raise HistoryError('no caller array')
+        _edit(arr, op)
+    elif o == 'setter':
+        arr = _mat(op['data'], fam)
+        _attr(fd, fam, key).data = arr
+        if op.get('alias'):         # ... and goes on using its array
+            _edit(arr, {**op['alias'], 'fam': fam})
+    elif o == 'loc':
+        a, d, sel, via = _attr(fd, fam, key), _fmat(op['data']), op['sel'], op['via']
+        if via == 'loc':
+            a.loc[sel].data = d
+        elif via == 'loc-scalar':
+            a.loc[sel[0]].data = d
+        elif via == 'iloc':
+            a.iloc[sel].data = d
+        elif via == 'iloc-slice':
+            a.iloc[sel[0]:sel[1]].data = d
+        else:
+            raise ValueError(via)
+    elif o == 'update':
+        ids, d = np.array(op['ids']), _fmat(op['data'])
+        if op['via'] == 'update_data':
+            attrs = fd.elemental_data if fam == 'elem' else fd.nodal_data
+            attrs.update_data(ids, {'NODE' if fam == 'nodes' else key: d}, allow_overwrite=True)
+        else:
+            _attr(fd, fam, key).update(ids, d, allow_overwrite=True)
+    elif o == 'overwrite':
+        attrs = fd.elemental_data if fam == 'elem' else fd.nodal_data
+        if op.get('ids') is None:
+            attrs.overwrite(key, _fmat(op['data']))
+        else:
+            attrs.overwrite(key, _fmat(op['data']), ids=np.array(op['ids']))
+    elif o == 'pop':
+        (fd.elemental_data if fam == 'elem' else fd.nodal_data).pop(key)
+    elif o == 'add':
+        attach(fd, fam, from_json_var(op['var']), keep)
+    elif o == 'elements.update':     # replace whole per-type blocks (same element ids; rows re-ordered / re-connected)
+        fd.elements.update({t: FEMAttribute(t, ids=np.array(b['ids']), data=np.array(b['conn']), silent=True)
+                            for t, b in op['blocks'].items()})
+    elif o == 'elem.update':         # the same for the per-type blocks of an elemental variable
+        a = fd.elemental_data[key]
+        a.update({t: FEMAttribute(a.name, ids=np.array(b['ids']), data=_fmat(b['data']), silent=True)
+                  for t, b in op['blocks'].items()})
+    elif o == 'renumber-nodes':
+        m = {int(a): int(b) for a, b in op['map']}
+        seen = set()
+        for a in [fd.nodes] + list(fd.nodal_data.values()):
+            if id(a) not in seen:
+                seen.add(id(a))
+                a.ids = np.array([m[int(i)] for i in a.ids])
+        new = {t: np.array([[m[int(n)] for n in row] for row in b.data]) for t, b in fd.elements.items()}
+        if op['conn_via'] == 'setter' and len(new) == 1:
+            fd.elements.data = list(new.values())[0]
+        else:
+            fd.elements.update({t: FEMAttribute(t, ids=np.array(fd.elements[t].ids), data=c, silent=True)
+                                for t, c in new.items()})
+    elif o == 'renumber-elements':
+        m = {int(a): int(b) for a, b in op['map']}
+        fd.elements.update({t: FEMAttribute(t, ids=np.array([m[int(i)] for i in b.ids]), data=np.array(b.data), silent=True)
+                            for t, b in fd.elements.items()})
+        for k, v in list(fd.elemental_data.items()):
+            fd.elemental_data.overwrite(k, np.array(v.data, dtype=float), ids=np.array([m[int(i)] for i in v.ids]))
+    else:
+        raise ValueError(o)
+    return None
+
+
+def from_json_var(v):
+    return {**v, 'data': [[dec_f(x) for x in r] for r in v['data']]}
+
+
+def _is2d(a):
+    return len(np.shape(a.data)) == 2
+
+
+def _one_block(a):
+    return not isinstance(a, dict) or a.get_n_element_type() == 1
+
+
+def _hexrows(rnd, n, w):
+    return [[enc_f(rand_float(rnd)) for _ in range(w)] for _ in range(n)]
+
+
+def _some_ids(rnd, ids):
+    k = rnd.randint(1, min(len(ids), rnd.choice([1, 2, 3, len(ids)])))
+    return rnd.sample(ids, k)
+
+
+def pick_op(rnd, fd, keep, allow_caller):
+    """one modification with concrete arguments, chosen by looking at the object's current public state; every kind
+    leaves all public views of the object in agreement on the unchanged tree (`incoherent`)"""
+    nod = [('nodal', k) for k, v in fd.nodal_data.items() if _is2d(v) and v is not fd.nodes]
+    ele = [('elem', k) for k, v in fd.elemental_data.items() if _is2d(v) and _one_block(v)]
+    node_paths = [('nodes', None)] + ([('nodal', 'NODE')] if fd.nodal_data.data.get('NODE') is fd.nodes else [])
+    single = fd.elements.get_n_element_type() == 1
+    kind = rnd.choice(['inplace'] * 7 + ['setter'] * 2 + ['loc'] * 2 + ['update'] * 2 + ['overwrite', 'caller', 'dict', 'elements',
+                                                                                           'elem.update', 'renumber'])
+    floats = [rnd.choice(node_paths)] * 2 + nod * 2 + ele * 2
+
+    def shape(t):
+        return np.shape(_attr(fd, *t).data)
+    if kind in ('inplace', 'caller'):
+        t = rnd.choice(floats + ([('conn', None)] if single else []))
+        if kind == 'caller':
+            if not allow_caller:
+                return None
+            t = ('nodes', None) if t[1] == 'NODE' else (('conn', list(fd.elements.keys())[0]) if t[0] == 'conn' else t)
+            if keep.get(t) is None:
+                return None
+            n, w = keep[t].shape
+        else:
+            n, w = shape(t)
+        op = {'op': kind, 'fam': t[0], 'key': t[1], 'how': rnd.choice(['cell', 'cell', 'row=', 'row+=', 'all='])}
+        if kind == 'inplace':
+            op['via'] = rnd.choice(['data', 'data', 'values', 'get_attribute_data'])
+        if t[0] == 'conn':
+            nids = [int(i) for i in fd.nodes.ids]
+            op['how'] = 'cell' if op['how'] in ('row+=', 'all=') else op['how']
+            if op['how'] == 'cell':
+                op['cells'] = [[rnd.randrange(n), rnd.randrange(w), rnd.choice(nids)] for _ in range(rnd.randint(1, 2))]
+            else:
+                op.update(row=rnd.randrange(n), vals=rnd.sample(nids, w))
+            return op
+        if op['how'] == 'cell':
+            op['cells'] = [[rnd.randrange(n), rnd.randrange(w), enc_f(rand_float(rnd, .5))] for _ in range(rnd.randint(1, 3))]
+        elif op['how'] in ('row=', 'row+='):
+            op.update(row=rnd.randrange(n), vals=[enc_f(rand_float(rnd) if op['how'] == 'row=' else float(rnd.randint(-3, 3)) / 4)
+                                                  for _ in range(w)])
+        else:
+            op['data'] = _hexrows(rnd, n, w)
+        return op
+    if kind == 'setter':
+        t = rnd.choice(floats + ([('conn', None)] if single else []))
+        n, w = shape(t)
+        if t[0] == 'conn':
+            b = list(fd.elements.values())[0]
+            rows = [[int(x) for x in r] for r in b.data]
+            rnd.shuffle(rows)
+            return {'op': 'setter', 'fam': 'conn', 'key': None, 'data': rows}
+        if t[0] != 'nodes' and t[1] != 'NODE' and rnd.random() < .4:
+            w = rnd.choice([1, 2, 3, 5, 8])      # the width of a variable may change
+        op = {'op': 'setter', 'fam': t[0], 'key': t[1], 'data': _hexrows(rnd, n, w)}
+        if rnd.random() < .4:
+            op['alias'] = {'how': 'cell', 'cells': [[rnd.randrange(n), rnd.randrange(w), enc_f(rand_float(rnd, .5))]]}
+        return op
+    if kind == 'loc':
+        t = rnd.choice([rnd.choice(node_paths)] + nod * 2 + [('elem', k) for _, k in ele if not isinstance(fd.elemental_data[k], dict)])
+        a = _attr(fd, *t)
+        n, w = shape(t)
+        ids = [int(i) for i in a.ids]
+        via = rnd.choice(['loc', 'loc', 'loc-scalar', 'iloc', 'iloc-slice'])
+        if via == 'loc':
+            sel = _some_ids(rnd, ids)
+        elif via == 'loc-scalar':
+            sel = [rnd.choice(ids)]
+        elif via == 'iloc':
+            sel = rnd.sample(range(n), rnd.randint(1, min(n, 3)))
+        else:
+            i = rnd.randrange(n)
+            sel = [i, rnd.randint(i + 1, n)]
+        k = sel[1] - sel[0] if via == 'iloc-slice' else len(sel)
+        return {'op': 'loc', 'fam': t[0], 'key': t[1], 'via': via, 'sel': sel, 'data': _hexrows(rnd, k, w)}
+    if kind == 'update':
+        t = rnd.choice([rnd.choice(node_paths)] + nod * 2 + ele * 2)
+        via = rnd.choice(['attr.update', 'update_data'])
+        if t == ('nodal', 'NODE'):
+            t, via = ('nodes', None), 'update_data'
+        elif t[0] == 'nodes':
+            via = 'attr.update'
+        ids = _some_ids(rnd, [int(i) for i in _attr(fd, *t).ids])
+        return {'op': 'update', 'fam': t[0], 'key': t[1], 'via': via, 'ids': ids, 'data': _hexrows(rnd, len(ids), shape(t)[1])}
+    if kind == 'overwrite':
+        cand = nod + ele + [('elem', k) for k, v in fd.elemental_data.items() if _is2d(v) and not _one_block(v)]
+        if not cand:
+            return None
+        t = rnd.choice(cand)
+        a = _attr(fd, *t)
+        n, w = shape(t)
+        ids = None
+        if not _one_block(a) or rnd.random() < .5:
+            ids = private_order(rnd, [int(i) for i in a.ids], rnd.choice(ORDER_CLASSES))
+        if rnd.random() < .3:
+            w = rnd.choice([1, 2, 3, 6])
+        return {'op': 'overwrite', 'fam': t[0], 'key': t[1], 'ids': ids, 'data': _hexrows(rnd, n, w)}
+    if kind == 'dict':
+        fam = rnd.choice(['nodal', 'elem'])
+        attrs = fd.nodal_data if fam == 'nodal' else fd.elemental_data
+        keys = [k for k in attrs.keys() if k != 'NODE']
+        if keys and rnd.random() < .5:
+            return {'op': 'pop', 'fam': fam, 'key': rnd.choice(keys)}
+        ids = [int(i) for i in (fd.nodes.ids if fam == 'nodal' else fd.elements.ids)]
+        name = rand_names(rnd, 1, taken=list(attrs.keys()))[0]
+        how = rnd.choice(['update_data', 'setitem', 'update'] + (['generate'] if fam == 'elem' else []))
+        own = private_order(rnd, ids, rnd.choice(ORDER_CLASSES))
+        return {'op': 'add', 'fam': fam, 'key': name,
+                'var': {'name': name, 'ids': own, 'how': how, 'data': _hexrows(rnd, len(ids), rnd.choice([1, 2, 3, 4]))}}
+    if kind == 'elements':
+        ts = rnd.sample(list(fd.elements.keys()), rnd.randint(1, min(2, len(fd.elements.keys()))))
+        nids = [int(i) for i in fd.nodes.ids]
+        blocks = {}
+        for t in ts:
+            b = fd.elements[t]
+            rows = [[int(i), [int(x) for x in c]] for i, c in zip(b.ids, b.data)]
+            rnd.shuffle(rows)
+            if rnd.random() < .6:
+                r = rnd.choice(rows)
+                r[1] = rnd.sample(nids, len(r[1]))
+            blocks[t] = {'ids': [i for i, _ in rows], 'conn': [c for _, c in rows]}
+        return {'op': 'elements.update', 'blocks': blocks}
+    if kind == 'elem.update':
+        cand = [k for k, v in fd.elemental_data.items() if isinstance(v, dict) and _is2d(v)]
+        if not cand:
+            return None
+        key = rnd.choice(cand)
+        a = fd.elemental_data[key]
+        w = np.shape(a.data)[1]
+        blocks = {}
+        for t in rnd.sample(list(a.keys()), rnd.randint(1, len(a.keys()))):
+            ids = [int(i) for i in a[t].ids]
+            rnd.shuffle(ids)
+            blocks[t] = {'ids': ids, 'data': _hexrows(rnd, len(ids), w)}
+        return {'op': 'elem.update', 'key': key, 'blocks': blocks}
+    if kind == 'renumber':
+        if rnd.random() < .5:
+            ids = [int(i) for i in fd.nodes.ids]
+            if any(not isinstance(v, dict) and sorted(int(i) for i in v.ids) != sorted(ids) for v in fd.nodal_data.values()):
+                return None
+            o = 'renumber-nodes'
+        else:
+            ids = [int(i) for i in fd.elements.ids]
+            if any(not _is2d(v) for v in fd.elemental_data.values()):
+                return None
+            o = 'renumber-elements'
+        style = rnd.choice(['rotate', 'rotate', 'offset', 'reverse-rank'])
+        s = sorted(ids)
+        if style == 'rotate':       # the SAME id set bound to other rows: nothing that is keyed on ids may survive
+            k = rnd.randrange(1, len(s)) if len(s) > 1 else 0
+            m = dict(zip(s, s[k:] + s[:k]))
+        elif style == 'offset':
+            d = rnd.choice([1, 7, 1000])
+            m = {i: i + d for i in s}
+        else:
+            m = dict(zip(s, s[::-1]))
+        return {'op': o, 'style': style, 'map': [[i, m[i]] for i in ids], 'conn_via': rnd.choice(['setter', 'update'])}
+    return None
+
+
+def start_object(ctx, case, keep):
+    """the object at the start of the history: as constructed, or as read from the UCD file of the constructed object"""
+    from femio import FEMData
+    h = case.get('hist') or {}
+    d = ctx.tmp / 'c04'
+    d.mkdir(exist_ok=True)
+    for f in d.iterdir():
+        f.unlink()
+    fd, err = real(build, case, keep)
+    if err:
+        raise RuntimeError('harness: could not build the FEMData: ' + err)
+    if h.get('via_file'):
+        _, err = real(fd.write, 'ucd', d / 'first.inp')
+        fd, err = (None, err) if err else real(FEMData.read_files, 'ucd', d / 'first.inp')
+        if err:
+            raise HistoryError('write / read before the history raises ' + err)
+        keep.clear()
+    if h.get('pre_write'):
+        fd.c04_state_at_earlier_write, _ = real(snapshot, fd)
+        _, err = real(fd.write, 'ucd', d / ('mesh.inp' if h['pre_write'] == 'same' else 'earlier.inp'))
+        if err:
+            raise HistoryError('the earlier write raises ' + err)
+    return fd
+
+
+def prepare(ctx, case):
+    """the object just before the final write"""
+    keep = {}
+    fd = start_object(ctx, case, keep)
+    for k, op in enumerate((case.get('hist') or {}).get('mods', [])):
+        _, err = real(apply_op, fd, op, keep)
+        if err:
+            raise HistoryError(f'modification {k} ({op["op"]}) raises {err}')
+    return fd
+
+
+def gen_history(ctx, rnd, case):
+    """adds case['hist']; the modifications are chosen against a live object so that their arguments are concrete.
+    -> that object in its final state (= what `prepare(ctx, case)` rebuilds from the description), or None"""
+    h = {'via_file': rnd.random() < .14, 'pre_write': rnd.choice([None, None, None, 'same', 'other']),
+         'writes': rnd.choice([1, 1, 2]), 'second': rnd.choice(['other', 'same-overwrite']), 'mods': []}
+    case['hist'] = h
+    n_ops = rnd.choice([0, 1, 1, 2, 2, 3, 4])
+    if n_ops == 0:
+        h['writes'] = 2
+    keep = {}
+    try:
+        fd = start_object(ctx, case, keep)
+    except HistoryError:
+        h['via_file'] = False
+        h['pre_write'] = None
+        return None
+    tries = 0
+    while len(h['mods']) < n_ops and tries < 12:
+        tries += 1
+        op, err = real(pick_op, rnd, fd, keep, not h['via_file'])
+        if err:
+            ctx.count('history: generator could not look at the object (' + err.split(':')[0] + ')')
+            return None
+        if op is None:
+            continue
+        note, err = real(apply_op, fd, op, keep)
+        if err:     # femio refuses this modification in the current state: the history ends before it
+            ctx.count(f'history: modification refused by femio, dropped ({hist_label(op)}: {err[:60]})')
+            return None
+        if note:
+            ctx.count('history: ' + note)
+        h['mods'].append(op)
+    return fd
+
+
+def hist_label(op):
+    o = op['op']
+    if o in ('inplace', 'caller'):
+        return f'{o}:{op["fam"]}:{op["how"]}'
+    if o in ('setter', 'overwrite'):
+        return f'{o}:{op["fam"]}' + ('+alias' if op.get('alias') else '') + ('+ids' if op.get('ids') else '')
+    if o in ('loc', 'update'):
+        return f'{o}:{op["fam"]}:{op["via"]}'
+    if o in ('pop', 'add'):
+        return f'{o}:{op["fam"]}'
+    if o.startswith('renumber'):
+        return f'{o}:{op["style"]}'
+    return o
 
 
 # ------------------------------------------------------------------ model input = what the writer looks at
 
-def model_fem(fd):
-    """protocol encoding of the FEMData as the writer sees it: every 2-D variable with its own ids and rows"""
-    t = []
-    nids = [int(i) for i in fd.nodes.ids]
-    t.append(C.enc_list(zip(nids, fd.nodes.data), lambda r: f'{r[0]} {C.enc_list(r[1], ftok)}'))
-    blocks = [(G.ELEMENT_TYPES.index(k), v) for k, v in fd.elements.items()]
-    t.append(C.enc_list(blocks, lambda b: f'{b[0]} ' + C.enc_list(
-        zip(b[1].ids, b[1].data), lambda e: f'{int(e[0])} {C.enc_list([int(n) for n in e[1]])}')))
+def _rows(a):
+    return [[float(x) for x in r] for r in a.data]
 
+
+def snapshot(fd):
+    """the public state of the object the property talks about, copied out of the object (plain Python values): `ids` /
+    `data` of the nodes, of every per-type element block (canonical type order, as `elements.items()` gives them), the
+    aggregate element ids, and of every 2-D nodal / elemental variable in dict order"""
     def tabs(attrs):
-        vs = [(k, v) for k, v in attrs.items() if len(np.shape(v.data)) == 2]
-        return C.enc_list(vs, lambda kv: ' '.join([
-            C.esc(kv[0]), str(np.shape(kv[1].data)[1]), C.enc_list([int(i) for i in kv[1].ids]),
-            C.enc_list(kv[1].data, lambda r: C.enc_list(r, ftok))]))
-    t.append(tabs(fd.nodal_data))
-    t.append(tabs(fd.elemental_data))
+        return [[k, [int(i) for i in v.ids], _rows(v)] for k, v in attrs.items() if len(np.shape(v.data)) == 2]
+    return {'nodes': [[int(i) for i in fd.nodes.ids], _rows(fd.nodes)],
+            'blocks': {t: [[int(i), [int(n) for n in c]] for i, c in zip(b.ids, b.data)] for t, b in fd.elements.items()},
+            'eids': [int(i) for i in fd.elements.ids],
+            'nodal': tabs(fd.nodal_data), 'elem': tabs(fd.elemental_data)}
+
+
+def snap_bits(snap):
+    def tb(t):
+        return [t[0], t[1], [[bits(x) for x in r] for r in t[2]]]
+    return {'nodes': [snap['nodes'][0], [[bits(x) for x in r] for r in snap['nodes'][1]]], 'blocks': snap['blocks'],
+            'eids': snap['eids'], 'nodal': [tb(t) for t in snap['nodal']], 'elem': [tb(t) for t in snap['elem']]}
+
+
+def incoherent(fd, snap):
+    """-> None, or why the public views of the object do not describe ONE mesh (aggregate view of the elements / of an
+    elemental variable != its per-type blocks, NODE variable != coordinates, a 2-D variable that does not cover the
+    mesh's ids): such an object is outside the property (separately labelled stream, nothing is reported)"""
+    by_id = {e: c for b in snap['blocks'].values() for e, c in b}
+    n = sum(len(b) for b in snap['blocks'].values())
+    order = [e for b in snap['blocks'].values() for e, _ in b]
+    if len(snap['blocks']) > 1:
+        order.sort()
+    if len(by_id) != n or snap['eids'] != order:
+        return 'element ids of the aggregate view != ids of the per-type blocks'
+    agg = {int(i): [int(x) for x in c] for i, c in zip(fd.elements.ids, fd.elements.data)}
+    if agg != by_id:
+        return 'connectivity of the aggregate view != per-type blocks'
+    for k, v in fd.elemental_data.items():
+        if isinstance(v, dict) and len(np.shape(v.data)) == 2:
+            blk = {int(i): tuple(bits(x) for x in r) for b in v.values() for i, r in zip(b.ids, b.data)}
+            if blk != {int(i): tuple(bits(x) for x in r) for i, r in zip(v.ids, v.data)}:
+                return 'aggregate view of an elemental variable != its per-type blocks'
+    nb = snap_bits(snap)
+    for k, ids, rows in nb['nodal']:
+        if k == 'NODE' and dict(zip(ids, map(tuple, rows))) != dict(zip(nb['nodes'][0], map(tuple, nb['nodes'][1]))):
+            return 'NODE variable != coordinates'
+        if sorted(ids) != sorted(snap['nodes'][0]):
+            return 'nodal variable whose ids are not the node ids'
+    for k, ids, rows in snap['elem']:
+        if sorted(ids) != sorted(snap['eids']):
+            return 'elemental variable whose ids are not the element ids'
+    if len(set(snap['nodes'][0])) != len(snap['nodes'][0]):
+        return 'duplicate node ids'
+    return None
+
+
+def content_of(snap):
+    """the snapshot as a case description: `build` makes an independently constructed FRESH object with the same content"""
+    keys = [k for k, _, _ in snap['nodal']]
+    return {'nodes': [[i, list(p)] for i, p in zip(*snap['nodes'])], 'blocks': snap['blocks'],
+            'nodal_vars': [{'name': k, 'ids': ids, 'how': 'setitem', 'data': rows} for k, ids, rows in snap['nodal'] if k != 'NODE'],
+            'elem_vars': [{'name': k, 'ids': ids, 'how': 'setitem', 'data': rows} for k, ids, rows in snap['elem']],
+            'pop_node': 'NODE' not in keys, 'node_pos': keys.index('NODE') if 'NODE' in keys else None,
+            'kind': 'snapshot', 'order': '-', 'id_style': '-'}
+
+
+def model_fem(snap):
+    """protocol encoding of the FEMData as the writer sees it (from a snapshot of its public state): every 2-D variable
+    with its own ids and rows"""
+    t = [C.enc_list(zip(*snap['nodes']), lambda r: f'{r[0]} {C.enc_list(r[1], ftok)}')]
+    blocks = [(G.ELEMENT_TYPES.index(k), v) for k, v in snap['blocks'].items()]
+    t.append(C.enc_list(blocks, lambda b: f'{b[0]} ' + C.enc_list(b[1], lambda e: f'{e[0]} {C.enc_list(e[1])}')))
+
+    def tabs(vs):
+        return C.enc_list(vs, lambda v: ' '.join([
+            C.esc(v[0]), str(len(v[2][0]) if v[2] else 0), C.enc_list(v[1]), C.enc_list(v[2], lambda r: C.enc_list(r, ftok))]))
+    t.append(tabs(snap['nodal']))
+    t.append(tabs(snap['elem']))
     return ' '.join(t)
 
 
@@ -361,103 +890,202 @@ def real(f, *a, **k):
 
 
 def brief(case):
+    h = case.get('hist')
     return {'kind': case['kind'], 'order': case['order'], 'id_style': case['id_style'], 'n_nodes': len(case['nodes']),
             'n_elems': sum(len(b) for b in case['blocks'].values()), 'types': list(case['blocks']),
             'nodal_vars': [(v['name'], len(v['data'][0])) for v in case['nodal_vars']],
             'elem_vars': [(v['name'], len(v['data'][0]), v['how']) for v in case['elem_vars']],
             'pop_node': case['pop_node'],
             'key!=FEMAttribute.name': {v['name']: [v['attr'], v['how']] for v in case['nodal_vars'] + case['elem_vars']
-                                       if v.get('attr', v['name']) != v['name']}}
+                                       if v.get('attr', v['name']) != v['name']},
+            **({'history': {'object read from a UCD file first': h['via_file'], 'written before the modifications': h['pre_write'],
+                            'modifications': [hist_label(o) for o in h['mods']], 'final writes': h['writes']}} if h else {})}
 
 
-def oracle(ctx, case, report):
-    """property on the real API: write -> read -> compare with the data the case was built from"""
-    from femio import FEMData
-    path = ctx.tmp / 'c04' / 'mesh.inp'
-    path.parent.mkdir(exist_ok=True)
-    if path.exists():
-        path.unlink()
-    fd, err = real(build, case)
-    if err:
-        raise RuntimeError('harness: could not build the FEMData: ' + err)
-    _, err = real(fd.write, 'ucd', path)
-    if err:
-        report('write-raises', f'write("ucd") raises {err}', {'error': err})
-        return fd, None, None
-    text = path.read_text()
-    rd, err = real(FEMData.read_files, 'ucd', path)
-    if err:
-        report('read-raises', f'read_files("ucd") of the written file raises {err}', {'error': err})
-        return fd, text, None
-    obs = observe(rd)
+def compare(content, obs, fd, report, pre=''):
+    """the property: what was read (obs) vs the content that was written (a case description: construction data of an
+    object written as constructed, the snapshot of the public state just before write() otherwise)"""
+    n_before = [0]
+
+    def rep(sig, what, observed):
+        n_before[0] += 1
+        report(pre + sig, what, observed)
     # coordinates by node id
-    want = {i: tuple(bits(x) for x in p) for i, p in case['nodes']}
+    want = {i: tuple(bits(x) for x in p) for i, p in content['nodes']}
     got = keyed(obs['nodes'])
     if got != want:
         bad = [i for i in want if got.get(i) != want[i]][:3]
-        report('coordinates-differ', f'coordinates of node {bad} read back differ / node missing',
-               {'ids': bad, 'read': [got.get(i) for i in bad], 'written': [want[i] for i in bad],
-                'extra_nodes': sorted(set(got) - set(want))[:3]})
+        rep('coordinates-differ', f'coordinates of node {bad} read back differ / node missing',
+            {'ids': bad, 'read': [got.get(i) for i in bad], 'written': [want[i] for i in bad],
+             'extra_nodes': sorted(set(got) - set(want))[:3]})
     # elements: type and connectivity by id (tet2 -> tet, first four nodes)
     wante = {}
-    for t, b in case['blocks'].items():
+    for t, b in content['blocks'].items():
         for e, c in b:
             wante[e] = ('tet', tuple(c[:4])) if t == 'tet2' else (t, tuple(c))
     gote = {i: (t, tuple(c)) for t, b in obs['blocks'].items() for i, c in b}
     if gote != wante:
         bad = [e for e in wante if gote.get(e) != wante[e]][:3]
-        sig = 'tet2-not-corner-tet' if any(t == 'tet2' for t in case['blocks']) and all(
-            gote.get(e) == wante[e] for t, b in case['blocks'].items() if t != 'tet2' for e, _ in b) else 'elements-differ'
-        report(sig, f'elements {bad} read back with another type / connectivity, or missing / extra elements',
-               {'ids': bad, 'read': [gote.get(e) for e in bad], 'written': [wante[e] for e in bad],
-                'extra': sorted(set(gote) - set(wante))[:3]})
+        sig = 'tet2-not-corner-tet' if any(t == 'tet2' for t in content['blocks']) and all(
+            gote.get(e) == wante[e] for t, b in content['blocks'].items() if t != 'tet2' for e, _ in b) else 'elements-differ'
+        rep(sig, f'elements {bad} read back with another type / connectivity, or missing / extra elements',
+            {'ids': bad, 'read': [gote.get(e) for e in bad], 'written': [wante[e] for e in bad],
+             'extra': sorted(set(gote) - set(wante))[:3]})
     # variables (own = the variable's own id order inside the FEMData that was written)
     mesh_ids = {'nodal': [int(i) for i in fd.nodes.ids], 'elem': [int(i) for i in fd.elements.ids]}
     attrs = {'nodal': fd.nodal_data, 'elem': fd.elemental_data}
-    for key, vars_, extra in (('nodal', case['nodal_vars'], {'NODE'}), ('elem', case['elem_vars'], set())):
+    for key, vars_, extra in (('nodal', content['nodal_vars'], {'NODE'}), ('elem', content['elem_vars'], set())):
         names = {v['name'] for v in vars_}
         if set(obs[key]) - extra != names:
-            report(f'variables-differ:{key}', f'{key} variables read {sorted(obs[key])} != written {sorted(names)}',
-                   {'read': sorted(obs[key]), 'written': sorted(names)})
+            rep(f'variables-differ:{key}', f'{key} variables read {sorted(obs[key])} != written {sorted(names)}',
+                {'read': sorted(obs[key]), 'written': sorted(names)})
             continue
         for v in vars_:
             want = {i: tuple(bits(x) for x in r) for i, r in zip(v['ids'], v['data'])}
             got = keyed(obs[key][v['name']])
             if got != want:
                 bad = [i for i in want if got.get(i) != want[i]][:3]
-                own = [int(i) for i in attrs[key][v['name']].ids]
-                if own != mesh_ids[key] and sorted(own) == sorted(mesh_ids[key]):
-                    report(f'positional-binding:{key}:{v["how"]}',
-                           f'{key} variable {v["name"]!r} (attached with {v["how"]}; its own id order {own[:4]}.. differs from '
-                           f'the mesh\'s {mesh_ids[key][:4]}..) is not written by id: the value read back under id {bad[0]} '
-                           f'is not the value the variable holds for that id', {'variable': v['name'], 'ids': bad, 'read': [got.get(i) for i in bad],
-                                                      'written': [want[i] for i in bad], 'variable_ids': own[:6],
-                                                      'mesh_ids': mesh_ids[key][:6]})
+                own = [int(i) for i in attrs[key][v['name']].ids] if v['name'] in attrs[key] else mesh_ids[key]
+                if not pre and own != mesh_ids[key] and sorted(own) == sorted(mesh_ids[key]):
+                    rep(f'positional-binding:{key}:{v["how"]}',
+                        f'{key} variable {v["name"]!r} (attached with {v["how"]}; its own id order {own[:4]}.. differs from '
+                        f'the mesh\'s {mesh_ids[key][:4]}..) is not written by id: the value read back under id {bad[0]} '
+                        f'is not the value the variable holds for that id', {'variable': v['name'], 'ids': bad, 'read': [got.get(i) for i in bad],
+                                                   'written': [want[i] for i in bad], 'variable_ids': own[:6],
+                                                   'mesh_ids': mesh_ids[key][:6]})
                 else:
-                    report(f'values-differ:{key}', f'{key} variable {v["name"]!r}: the value read under id {bad[0]} is not '
-                           f'the value it had before writing', {'variable': v['name'], 'ids': bad,
-                                                                'read': [got.get(i) for i in bad],
-                                                                'written': [want[i] for i in bad]})
+                    rep(f'values-differ:{key}', f'{key} variable {v["name"]!r}: the value read under id {bad[0]} is not '
+                        f'the value it had ' + ('just before write()' if pre else 'before writing'),
+                        {'variable': v['name'], 'ids': bad, 'read': [got.get(i) for i in bad], 'written': [want[i] for i in bad]})
         if key == 'nodal' and 'NODE' in obs[key] and keyed(obs[key]['NODE']) != keyed(obs['nodes']):
-            report('values-differ:nodal', 'nodal variable NODE differs from the coordinates', {})
-    return fd, text, obs
+            rep('values-differ:nodal', 'nodal variable NODE differs from the coordinates', {})
+    return n_before[0]
+
+
+def read_back(path):
+    from femio import FEMData
+    rd, err = real(FEMData.read_files, 'ucd', path)
+    return (None, err) if err else (observe(rd), None)
+
+
+def oracle(ctx, case, report, prepared=None):
+    """property on the real API: [history] -> write -> read -> compare.  An object written as constructed is compared
+    with the data it was built from; an object with a history with the snapshot of its public state taken just before
+    write() -- and its file with the file of an independently constructed fresh object of the same content, with the file
+    of a second write of the same object, and the object's state after write() with the state before.
+    -> dict(fd, snap, text, obs, notes) / dict(outside=why)"""
+    h = case.get('hist')
+    try:
+        fd = prepared if prepared is not None else prepare(ctx, case)
+    except HistoryError as e:
+        return {'outside': 'history not applicable: ' + str(e), 'text': None}
+    snap, err = real(snapshot, fd)
+    if err:
+        raise RuntimeError('harness: could not look at the FEMData: ' + err)
+    out = {'fd': fd, 'snap': snap, 'text': None, 'obs': None, 'notes': []}
+    pre = 'history:' if h else ''
+    if h:
+        why = incoherent(fd, snap)
+        if why:
+            return {'outside': 'public views of the object disagree: ' + why, 'text': None}
+    content = content_of(snap) if h else case
+    d = ctx.tmp / 'c04'
+    d.mkdir(exist_ok=True)
+    path = d / 'mesh.inp'
+    same = bool(h) and h.get('pre_write') == 'same'
+    if path.exists() and not same:
+        path.unlink()
+    _, err = real(fd.write, 'ucd', path, **({'overwrite': True} if same else {}))
+    if err:
+        report(pre + 'write-raises', f'write("ucd") raises {err}', {'error': err})
+        return out
+    text = out['text'] = path.read_text()
+    obs, err = read_back(path)
+    if err:
+        report(pre + 'read-raises', f'read_files("ucd") of the written file raises {err}', {'error': err})
+        return out
+    out['obs'] = obs
+    n_bad = compare(content, obs, fd, report, pre)
+    # write() leaves the object as it was
+    after, err = real(snapshot, fd)
+    if err or snap_bits(after) != snap_bits(snap):
+        a, b = snap_bits(snap), (snap_bits(after) if not err else {})
+        report(pre + 'write-changes-object', 'the public state (ids / data of nodes, elements, variables) of the object after '
+               'write("ucd") differs from the state before', {'parts': [k for k in a if a[k] != b.get(k)], 'error': err})
+    if not h:
+        return out
+    # the same object written a second time: the same file
+    if h.get('writes') == 2:
+        p2 = path if h.get('second') == 'same-overwrite' else d / 'second.inp'
+        _, err = real(fd.write, 'ucd', p2, overwrite=True)
+        if err:
+            report(pre + 'second-write:write-raises', f'the second write("ucd") of the same object raises {err}', {'error': err})
+        elif p2.read_text() != text:
+            obs2, err = read_back(p2)
+            if err:
+                report(pre + 'second-write:read-raises', f'the file of the second write cannot be read: {err}', {'error': err})
+            elif not compare(content, obs2, fd, report, pre + 'second-write:'):
+                out['notes'].append(('second write of the same object gives another file (both read back exactly)',
+                                     text[:300], p2.read_text()[:300]))
+    # an independently constructed fresh object with the same content: the same file (every second history when the model
+    # writer is there to say what the bytes of the file must be; always when something is wrong or there is no model)
+    if ctx.driver is not None and not n_bad and ctx.evaluations % 2:
+        return out
+    fresh, err = real(build, content)
+    if err:
+        raise RuntimeError('harness: could not build the fresh FEMData: ' + err)
+    p3 = d / 'fresh.inp'
+    _, err = real(fresh.write, 'ucd', p3)
+    if err:
+        report('fresh:write-raises', f'write("ucd") of a fresh object raises {err}', {'error': err, 'content': to_json(content)})
+    elif p3.read_text() != text:
+        # which of the two files is wrong is decided by the property (read back vs content), not by the byte difference
+        def rep3(sig, what, o):
+            report('fresh:' + sig, what + ' [fresh object with the content of the snapshot]', {**o, 'content': to_json(content)})
+        obs3, err = read_back(p3)
+        if err:
+            rep3('read-raises', f'read_files("ucd") raises {err}', {'error': err})
+        elif not compare(content, obs3, fresh, rep3) and not n_bad:
+            out['notes'].append(('file of the modified object != file of a fresh object with the same content (both read '
+                                 'back exactly)', text[:300], p3.read_text()[:300]))
+    return out
 
 
 CFGS = {'fixed': 1, 'upstream': 0}
 
 
-def run_case(ctx, case, cfg_mismatch, stream='main'):
-    # both streams (main, own-id-order) are inside the property's quantifier: failures are reported through ctx.fail
+def run_case(ctx, case, cfg_mismatch, stream='main', prepared=None):
+    # all streams (main, own-id-order, with or without a history) are inside the property's quantifier: failures are
+    # reported through ctx.fail; objects whose public views disagree with each other are not (labelled stream `outside`)
     def report(sig, what, observed):
         ctx.fail(sig, what, to_json(case), observed)
         if stream != 'main':
             ctx.count(f'{stream}: {sig}')
-    fd, text, obs = oracle(ctx, case, report)
+    found = []
+    r = oracle(ctx, case, lambda *a: found.append(a), prepared)
+    if prepared is not None and (found or ctx.evaluations % 12 == 0):
+        # `prepared` is the live object the history was generated on; a replay has the description only: failures are
+        # reported as they reproduce from the description (and every 12th case, if it has a history, is rebuilt from it as a self-check)
+        again = []
+        r2 = oracle(ctx, case, lambda *a: again.append(a))
+        if not r.get('outside') and (r2.get('outside') or snap_bits(r2['snap']) != snap_bits(r['snap'])
+                                     or sorted(a[0] for a in again) != sorted(a[0] for a in found)):
+            raise RuntimeError('harness: the description of a history does not reproduce the object it was generated on: '
+                               + str(brief(case)))
+        ctx.count('history: rebuilt from its description (self-check of the replay path)')
+    for a in found:
+        report(*a)
+    if r.get('outside'):
+        ctx.count('outside (not reported): ' + r['outside'].split(':')[0] + ': ' + r['outside'].split(':')[1].strip()[:60])
+        return
+    for what, a, b in r['notes']:
+        ctx.disagree(f'{stream}: {what}', brief(case), a, b)
+    text, obs = r['text'], r['obs']
     if ctx.driver is None or text is None:
         return
     # (a) writer: the characters of the real file vs the characters `fileText` of the model writer, for each Cfg
-    # (exactly one must reproduce every file)
-    enc = model_fem(fd)
+    # (exactly one must reproduce every file); the model is fed the state of the object just BEFORE write()
+    enc = model_fem(r['snap'])
     for name, flag in CFGS.items():
         hyp, mtext = model_write(ctx, flag, enc)
         if name == 'fixed':
@@ -471,6 +1099,30 @@ def run_case(ctx, case, cfg_mismatch, stream='main'):
             cfg_mismatch[name].append((f'{stream}: written file != model writer', brief(case),
                                        {'line': k, 'text': rlines[k:k + 2], 'n_lines': len(rlines)},
                                        {'line': k, 'text': mlines[k:k + 2], 'n_lines': len(mlines)}))
+    # (a') session model (`Model/UcdHist.lean`, HCfg.tree): every file the history wrote holds, at the end, what the
+    # model session holds for it (an earlier file at another path is still the earlier state, a re-written path the
+    # final one, a second write the same characters)
+    h = case.get('hist')
+    if h and (h.get('pre_write') or h.get('writes') == 2):
+        steps, paths = [], {'mesh.inp': 0, 'earlier.inp': 1, 'second.inp': 2}
+        pre_snap = getattr(r['fd'], 'c04_state_at_earlier_write', None)
+        if h.get('pre_write') and pre_snap is not None:
+            steps += ['a ' + model_fem(pre_snap), 'w 0' if h['pre_write'] == 'same' else 'w 1']
+        steps += [('i ' if steps else 'a ') + enc, 'w 0']
+        if h.get('writes') == 2:
+            steps.append('w 0' if h.get('second') == 'same-overwrite' else 'w 2')
+        t = C.Toks(ctx.driver.ask('c04.session 1 ' + C.enc_list(steps, lambda x: x)))
+        if t.tok() != 'ok':
+            raise RuntimeError('driver: c04.session failed')
+        model_files = dict(t.lst(lambda: (t.nat(), C.unesc(t.tok()))))
+        real_files = {paths[f.name]: f.read_text() for f in (ctx.tmp / 'c04').iterdir() if f.name in paths}
+        ctx.count('tie: session model vs the files on disk after the history')
+        if model_files != real_files:
+            bad = sorted(k for k in set(model_files) | set(real_files) if model_files.get(k) != real_files.get(k))
+            names = {v: k for k, v in paths.items()}
+            ctx.disagree(f'{stream}: files after the history != session model (HCfg.tree)', brief(case),
+                         {names[k]: (real_files.get(k) or '<absent>')[:200] for k in bad},
+                         {names[k]: (model_files.get(k) or '<absent>')[:200] for k in bad})
     # (b) reader: real reader vs model reader (`readText` + `readTables`) on the characters of the real file
     mread = dec_read(ctx.driver.ask('c04.read ' + C.esc(text)))
     if obs is None or mread is None:
@@ -513,6 +1165,25 @@ def count_renames(ctx, case, stream=''):
             ctx.count(f'{stream}key != FEMAttribute.name: cases with a {fam} attribute named like another key')
 
 
+P_HISTORY, P_HISTORY_OWN = .42, .3
+
+
+def count_history(ctx, case, stream=''):
+    h = case.get('hist')
+    ctx.count(f'{stream}history: ' + ('object modified / written before the final write' if h else 'none (written as constructed)'))
+    if not h:
+        return
+    ctx.count(f'{stream}history: number of modifications: {len(h["mods"])}')
+    for o in h['mods']:
+        ctx.count(f'{stream}history: modification {hist_label(o)}')
+    if h['via_file']:
+        ctx.count(f'{stream}history: object read from a UCD file, then modified and written (write after read)')
+    if h['pre_write']:
+        ctx.count(f'{stream}history: object written once before the modifications ({h["pre_write"]} file)')
+    if h['writes'] == 2:
+        ctx.count(f'{stream}history: final state written twice (second: {h["second"]})')
+
+
 def run(ctx):
     n_cases =ctx.n(220, 2500) if ctx.driver is not None else ctx.n(400, 3000)
     cfg_mismatch = {c: [] for c in CFGS}
@@ -523,6 +1194,8 @@ def run(ctx):
         ctx.count('corpus')
     for k in range(n_cases):
         case = gen_case(ctx.rng)
+        fd = gen_history(ctx, ctx.rng, case) if ctx.rng.random() < P_HISTORY else None
+        count_history(ctx, case)
         vals = [x for v in case['nodal_vars'] + case['elem_vars'] for r in v['data'] for x in r] + \
                [x for _, p in case['nodes'] for x in p]
         ctx.case(str(to_json(case)), sample=brief(case),
@@ -547,11 +1220,13 @@ def run(ctx):
         ctx.count('values:denormal', sum(1 for x in vals if x == x and x != 0 and abs(x) < 2.2250738585072014e-308))
         ctx.count('values:|x|>=1e300', sum(1 for x in vals if x == x and not math.isinf(x) and abs(x) >= 1e300))
         ctx.count('values:total', len(vals))
-        run_case(ctx, case, cfg_mismatch)
+        run_case(ctx, case, cfg_mismatch, prepared=fd)
     # stream own-id-order (DESIGN section 5, F9 - fixed in the tree: the writer binds rows to ids): every variable keeps its
     # rows in a private id order; part of the property oracle (values read back are bound to the same ids, bit-identical)
     for k in range(ctx.n(90, 700) if ctx.driver is not None else ctx.n(160, 900)):
         case = gen_case(ctx.rng, own_orders=True)
+        fd = gen_history(ctx, ctx.rng, case) if ctx.rng.random() < P_HISTORY_OWN else None
+        count_history(ctx, case, 'own-id-order: ')
         fams = own_order_families(case)
         ctx.case(('own-id-order', str(to_json(case))), sample=None, nontrivial=any(n >= 2 for n in fams.values()))
         ctx.count('own-id-order: cases')
@@ -560,7 +1235,7 @@ def run(ctx):
         for v in case['nodal_vars'] + case['elem_vars']:
             ctx.count('own-id-order: attached by ' + v['how'])
         count_renames(ctx, case, 'own-id-order: ')
-        run_case(ctx, case, cfg_mismatch, stream='own-id-order')
+        run_case(ctx, case, cfg_mismatch, stream='own-id-order', prepared=fd)
     if ctx.driver is not None:
         agree = [c for c in CFGS if not cfg_mismatch[c]]
         ctx.extra['cfg_detected'] = agree
@@ -569,17 +1244,52 @@ def run(ctx):
             for what, b, impl, model in cfg_mismatch['fixed'][:10]:
                 ctx.disagree(what + ' Cfg.fixed' + (' (tree behaves as Cfg.upstream: F9)' if 'upstream' in agree else ''),
                              b, impl, model)
-    ctx.failures.sort(key=lambda f: (len(f['case']['nodes']), sum(len(b) for b in f['case']['blocks'].values())))
+    ctx.failures.sort(key=lambda f: (len((f['case'].get('hist') or {}).get('mods', [])), len(f['case']['nodes']),
+                                     sum(len(b) for b in f['case']['blocks'].values())))
+    if ctx.failures and ctx.failures[0]['case'].get('hist'):
+        shrink_history(ctx, ctx.failures[0])
+
+
+def shrink_history(ctx, f):
+    """the primary failure, if it has a history: drop every step of the history that is not needed for its signature"""
+    def fails(c):
+        sigs = []
+        try:
+            oracle(ctx, c, lambda sig, what, observed: sigs.append((sig, what, observed)))
+        except Exception:  # noqa
+            return None
+        return next((x for x in sigs if x[0] == f['signature']), None)
+    case = from_json(f['case'])
+    if fails(case) is None:
+        return
+    h = case['hist']
+    for simpler in ({'via_file': False}, {'pre_write': None}, {'writes': 1}):
+        c = {**case, 'hist': {**h, **simpler}}
+        if h.get(list(simpler)[0]) != list(simpler.values())[0] and fails(c):
+            case, h = c, c['hist']
+    k = 0
+    while k < len(h['mods']):
+        c = {**case, 'hist': {**h, 'mods': h['mods'][:k] + h['mods'][k + 1:]}}
+        if fails(c):
+            case, h = c, c['hist']
+        else:
+            k += 1
+    got = fails(case)
+    if got:
+        f.update(case=to_json(case), what=got[1], observed=got[2])
+        ctx.count('primary failure: history shrunk to the steps needed')
 
 
 def replay(ctx, obj):
     case = from_json(obj['input'])
     found = []
-    fd, text, obs = oracle(ctx, case, lambda sig, what, observed: found.append(
-        {'signature': sig, 'what': what, 'observed': observed}))
+    r = oracle(ctx, case, lambda sig, what, observed: found.append({'signature': sig, 'what': what, 'observed': observed}))
+    text = r.get('text')
     out = {'case': brief(case), 'failures': found, 'fails': bool(found), 'file_head': (text or '').split('\n')[:6]}
+    if r.get('outside'):
+        out['outside'] = r['outside']
     if ctx.driver is not None and text is not None:
-        enc = model_fem(fd)
+        enc = model_fem(r['snap'])
         out['model_writer_agrees'] = {}
         for name, flag in CFGS.items():
             out['model_writer_agrees']['Cfg.' + name] = model_write(ctx, flag, enc)[1] == text
